@@ -50,9 +50,23 @@ def handleOf (results : Array Val) (j : Json) (k : String) : Except String (Opti
   | .handle id => return some id
   | _ => return none
 
+/-- does the JSON mention `{"res": k}` for an op `k` that did not return a handle? -/
+partial def badRes (results : Array Val) (j : Json) : Bool :=
+  match j with
+  | .arr xs => xs.any (badRes results)
+  | .obj kvs =>
+    (match j.getObjVal? "res" with
+     | .ok (.num n) =>
+       (match results.getD n.mantissa.toNat .none with
+        | .handle _ => false
+        | _ => true)
+     | _ => false) || kvs.toList.any (fun p => badRes results p.2)
+  | _ => false
+
 /-- `none` = skipped (refers to an op that did not return a handle) -/
 def parseProg (results : Array Val) (j : Json) : Except String (Option Prog) := do
   let p ← Driver.getStr j "p"
+  if badRes results j then return none
   match p with
   | "expr" => return some (.expr (← Driver.Lazy.parseExpr results (← j.getObjVal? "e")))
   | "exc_value" => return some (.excValue (← parseExc results (← j.getObjVal? "x")))
